@@ -118,6 +118,7 @@ Qed.
 (* the documented meaning for one non-null value *)
 Definition sat_min (b : bound) (v : value) : bool :=
   match b_value b, b_prec b with
+  | VDate _, POpen => vltb (b_value b) v
   | VDate _, _ => vleb (b_value b) v
   | _, PClosed => vleb (b_value b) v
   | _, POpen => vltb (b_value b) v
@@ -125,6 +126,7 @@ Definition sat_min (b : bound) (v : value) : bool :=
   end.
 Definition sat_max (b : bound) (v : value) : bool :=
   match b_value b, b_prec b with
+  | VDate _, POpen => vltb v (b_value b)
   | VDate _, _ => vleb v (b_value b)
   | _, PClosed => vleb v (b_value b)
   | _, POpen => vltb v (b_value b)
